@@ -78,6 +78,12 @@ impl Counter {
 
 impl Drop for Counter {
     fn drop(&mut self) {
+        // A counter the conductor has already closed (close_all_resources) was removed from the conductor's registry
+        // there. The conductor drops its cached handle while its own mutex is held: locking it again would dead-lock.
+        if self.is_closed() {
+            return;
+        }
+
         let _ignored = self
             .client_conductor
             .lock()
